@@ -1,72 +1,69 @@
-(* C17 — 8-byte unsigned fields: round trip and exact refusal for EVERY int64 offset when a negative displacement is
-   refused first (the fixed tree), and for the code as it is whenever bits + discard <= 63; with bits + discard = 64 the code
-   as it is accepts negative displacements as their two's complement (refuted theorem, known finding). *)
+(* C17 — 8-byte unsigned fields (encode_offset64, OffsetType::kUnsignedOffset).  The int64 argument is the two's-complement
+   image of a uint64 displacement (relocate_to_base stores absolute addresses >= 2^63 through the 8-byte 64-bit format), so the
+   field is specified over the UINT64 READING  u = off mod 2^64 :  encoding succeeds iff u has zero low `discard` bits and
+   u / 2^discard fits `bits`, and decoding gives back u.  For bits + discard <= 63 no negative int64 is accepted, so there the
+   int64 reading and the uint64 reading coincide (unsigned64_int64_exact). *)
 From Coq Require Import ZArith Lia Bool List.
-From Verif Require Import Base.ZBits Codec.OffsetModel Codec.OffsetProofs Codec.OffsetFormatsProofs Codec.T32FixModel Codec.Unsigned64Model.
+From Verif Require Import Base.ZBits Codec.OffsetModel Codec.OffsetProofs Codec.OffsetFormatsProofs.
 Local Open Scope Z_scope.
 
-Lemma encode_var_unsigned8 fb fc f off : ty f = UnsignedOffset -> vsize f = 8 -> encode_offset_var fb fc f off = encode_offset64 f off.
+(* the reinterpretation, explicit *)
+Definition u64 (off : Z) : Z := off mod 2 ^ 64.
+Lemma u64_of_int64 off : int64 off -> u64 off = if off <? 0 then off + 2 ^ 64 else off.
 Proof.
-  intros Hty Hv. unfold encode_offset_var. rewrite Hv. reflexivity.
+  intros H. unfold int64 in H. unfold u64. destruct (Z.ltb_spec off 0).
+  - symmetry. apply (Z.mod_unique off (2 ^ 64) (-1)); lia.
+  - apply Z.mod_small. lia.
 Qed.
+Lemma u64_range off : 0 <= u64 off < 2 ^ 64.
+Proof. apply Z.mod_pos_bound. reflexivity. Qed.
 
-(* the 64-bit unsigned path on a non-negative offset, and on a negative one when the field cannot hold its two's complement *)
 Lemma unsigned64_spec f off :
-  ty f = UnsignedOffset -> wf_contig64 f -> int64 off -> (0 <= off \/ bits f + discard f <= 63) ->
+  ty f = UnsignedOffset -> wf_contig64 f -> int64 off ->
   match encode_offset64 f off with
-  | Some m => unsigned_ok f off /\ m = (off / 2 ^ discard f) * 2 ^ shift f
-  | None => ~ unsigned_ok f off
+  | Some m => unsigned_ok f (u64 off) /\ m = (u64 off / 2 ^ discard f) * 2 ^ shift f
+  | None => ~ unsigned_ok f (u64 off)
   end.
 Proof.
-  intros Hty (Hv & Hb & Hs & Hfit & Hd) Hoff Hcase. unfold int64 in Hoff.
+  intros Hty (Hv & Hb & Hs & Hfit & Hd) Hoff. unfold int64 in Hoff. unfold unsigned_ok.
+  pose proof (u64_range off) as Hu.
   unfold encode_offset64. rewrite Hty, Hv.
   replace (bits f =? 0) with false by (symmetry; apply Z.eqb_neq; lia).
   replace (8 * 8 <? bits f) with false by (symmetry; apply Z.ltb_ge; lia).
   cbn [orb].
-  destruct (negb (discard f =? 0) && negb (off mod 2 ^ discard f =? 0)) eqn:Edl.
-  { apply discard_check_true in Edl; [|lia]. intros (H & _). contradiction. }
-  apply discard_check_false in Edl; [|lia].
   pose proof (pow2_pos (discard f) ltac:(lia)) as Hpd. pose proof (pow2_pos (bits f) ltac:(lia)) as Hpb.
-  pose proof (pow2_le (bits f) 64 ltac:(lia)) as Hb64.
+  (* the low discard bits of off and of its uint64 image are the same *)
+  assert (Hlow : off mod 2 ^ discard f = u64 off mod 2 ^ discard f).
+  { unfold u64. symmetry. apply mod_mod_pow2. lia. }
+  destruct (negb (discard f =? 0) && negb (off mod 2 ^ discard f =? 0)) eqn:Edl.
+  { apply discard_check_true in Edl; [|lia]. intros (H & _). rewrite Hlow in Edl. contradiction. }
+  apply discard_check_false in Edl; [|lia]. rewrite Hlow in Edl.
   set (o := if discard f =? 0 then off else to_i64 (wrap 64 off / 2 ^ discard f)).
-  (* the unsigned 64-bit value compared against *)
-  assert (Hw : wrap 64 o = (wrap 64 off) / 2 ^ discard f).
-  { subst o. destruct (Z.eqb_spec (discard f) 0) as [E|E].
+  assert (Hw : wrap 64 o = u64 off / 2 ^ discard f).
+  { subst o. unfold u64. destruct (Z.eqb_spec (discard f) 0) as [E|E].
     - rewrite E. change (2 ^ 0) with 1. rewrite Z.div_1_r. reflexivity.
     - unfold to_i64, wrap. rewrite sext_is_sextz, sextz_mod_id by lia.
-      apply Z.mod_small. pose proof (Z.mod_pos_bound off (2 ^ 64) ltac:(reflexivity)).
-      split; [apply Z.div_pos; lia|]. apply Z.div_lt_upper_bound; [lia|]. nia. }
+      apply Z.mod_small. fold (u64 off). split; [apply Z.div_pos; lia|]. apply Z.div_lt_upper_bound; [lia|]. nia. }
   cbv zeta. fold o. rewrite Hw.
-  destruct (Z_lt_le_dec off 0) as [Hneg|Hpos].
-  - (* negative: refused because the quotient does not fit *)
-    assert (Hbd : bits f + discard f <= 63) by (destruct Hcase; lia).
-    assert (Ew : wrap 64 off = off + 2 ^ 64) by (unfold wrap; symmetry; apply (Z.mod_unique off (2 ^ 64) (-1)); lia).
-    rewrite Ew.
-    assert (Hq : 2 ^ bits f <= (off + 2 ^ 64) / 2 ^ discard f).
-    { apply Z.div_le_lower_bound; [lia|]. rewrite Z.mul_comm, <- Z.pow_add_r by lia.
-      pose proof (pow2_le (bits f + discard f) 63 ltac:(lia)). lia. }
-    rewrite mod_ne_of_ge by lia.
-    intros (_ & Hr). assert (off / 2 ^ discard f < 0) by (apply Z.div_lt_upper_bound; lia). lia.
-  - replace (wrap 64 off) with off by (unfold wrap; rewrite Z.mod_small by lia; reflexivity).
-    destruct (Z.ltb_spec (off / 2 ^ discard f) (2 ^ bits f)) as [Hlt|Hge].
-    + assert (Hq : 0 <= off / 2 ^ discard f) by (apply Z.div_pos; lia).
-      rewrite Z.mod_small by lia. rewrite Z.eqb_refl.
-      split; [split; [exact Edl | lia]|].
-      rewrite Z.mod_small by lia.
-      pose proof (mul_pow2_bound (off / 2 ^ discard f) (bits f) (shift f) Hs ltac:(lia) ltac:(lia)) as Hmb.
-      pose proof (pow2_le (bits f + shift f) 64 ltac:(lia)). unfold wrap. rewrite Z.mod_small by lia. reflexivity.
-    + rewrite mod_ne_of_ge by lia. intros (_ & Hr). lia.
+  assert (Hq : 0 <= u64 off / 2 ^ discard f) by (apply Z.div_pos; lia).
+  destruct (Z.ltb_spec (u64 off / 2 ^ discard f) (2 ^ bits f)) as [Hlt|Hge].
+  - rewrite Z.mod_small by lia. rewrite Z.eqb_refl.
+    split; [split; [exact Edl | lia]|].
+    rewrite Z.mod_small by lia.
+    pose proof (mul_pow2_bound (u64 off / 2 ^ discard f) (bits f) (shift f) Hs ltac:(lia) ltac:(lia)) as Hmb.
+    pose proof (pow2_le (bits f + shift f) 64 ltac:(lia)). unfold wrap. rewrite Z.mod_small by lia. reflexivity.
+  - rewrite mod_ne_of_ge by lia. intros (_ & Hr). lia.
 Qed.
 
 Theorem unsigned64_roundtrip f off m :
-  ty f = UnsignedOffset -> wf_contig64 f -> int64 off -> bits f + discard f <= 63 ->
+  ty f = UnsignedOffset -> wf_contig64 f -> int64 off ->
   encode_offset f off = Some m ->
-  decode_unsigned f m = off /\ 0 <= m < 2 ^ (bits f + shift f) /\ m mod 2 ^ shift f = 0.
+  decode_unsigned f m = off mod 2 ^ 64 /\ 0 <= m < 2 ^ (bits f + shift f) /\ m mod 2 ^ shift f = 0.
 Proof.
-  intros Hty Hwf Hoff Hbd He. pose proof Hwf as (Hv & Hb & Hsft & Hfit & Hd).
+  intros Hty Hwf Hoff He. pose proof Hwf as (Hv & Hb & Hsft & Hfit & Hd).
   unfold encode_offset in He. rewrite Hv in He. cbn [Z.eqb Pos.eqb orb] in He.
-  pose proof (unsigned64_spec f off Hty Hwf Hoff (or_intror Hbd)) as Hs. rewrite He in Hs.
-  destruct Hs as ((Hm0 & Hr) & ->).
+  pose proof (unsigned64_spec f off Hty Hwf Hoff) as Hs. rewrite He in Hs.
+  destruct Hs as ((Hm0 & Hr) & ->). fold (u64 off).
   split; [|split].
   - unfold decode_unsigned. rewrite field_raw_of_encoded by lia. apply div_pow2_exact; lia.
   - apply mul_pow2_bound; lia.
@@ -74,54 +71,42 @@ Proof.
 Qed.
 
 Theorem unsigned64_refused_iff f off :
-  ty f = UnsignedOffset -> wf_contig64 f -> int64 off -> bits f + discard f <= 63 ->
-  (encode_offset f off = None <-> ~ unsigned_ok f off).
+  ty f = UnsignedOffset -> wf_contig64 f -> int64 off ->
+  (encode_offset f off = None <-> ~ unsigned_ok f (off mod 2 ^ 64)).
 Proof.
-  intros Hty Hwf Hoff Hbd. pose proof Hwf as (Hv & _).
+  intros Hty Hwf Hoff. pose proof Hwf as (Hv & _).
   unfold encode_offset. rewrite Hv. cbn [Z.eqb Pos.eqb orb].
-  pose proof (unsigned64_spec f off Hty Hwf Hoff (or_intror Hbd)) as Hs.
+  pose proof (unsigned64_spec f off Hty Hwf Hoff) as Hs. fold (u64 off).
   destruct (encode_offset64 f off) as [m|]; split; intros H; try congruence; tauto.
 Qed.
 
-(* with the negative test (un = true): every well-formed 8-byte unsigned format, no restriction on bits + discard *)
-Theorem unsigned64_top_spec fb fc f off :
-  ty f = UnsignedOffset -> wf_contig64 f -> int64 off ->
-  match encode_offset_top fb fc true f off with
-  | Some m => unsigned_ok f off /\ m = (off / 2 ^ discard f) * 2 ^ shift f /\ decode_unsigned f m = off
-  | None => ~ unsigned_ok f off
-  end.
+(* when the field cannot hold values >= 2^63 (bits + discard <= 63) only non-negative int64 offsets are accepted and the
+   decoded value is the int64 offset itself *)
+Theorem unsigned64_int64_exact f off m :
+  ty f = UnsignedOffset -> wf_contig64 f -> int64 off -> bits f + discard f <= 63 ->
+  encode_offset f off = Some m -> 0 <= off /\ decode_unsigned f m = off.
 Proof.
-  intros Hty Hwf Hoff. pose proof Hwf as (Hv & Hb & Hsft & Hfit & Hd).
-  unfold encode_offset_top, is_unsigned8. rewrite Hty, Hv. cbn [Z.eqb Pos.eqb andb].
-  pose proof (pow2_pos (discard f) ltac:(lia)) as Hpd.
-  destruct (Z.ltb_spec off 0) as [Hneg|Hpos].
-  - intros (_ & Hr). assert (off / 2 ^ discard f < 0) by (apply Z.div_lt_upper_bound; lia). lia.
-  - rewrite encode_var_unsigned8 by assumption.
-    pose proof (unsigned64_spec f off Hty Hwf Hoff (or_introl Hpos)) as Hs.
-    destruct (encode_offset64 f off) as [m|]; [|exact Hs].
-    destruct Hs as ((Hm0 & Hr) & ->). split; [split; assumption|]. split; [reflexivity|].
-    unfold decode_unsigned. rewrite field_raw_of_encoded by lia. apply div_pow2_exact; lia.
+  intros Hty Hwf Hoff Hbd He. pose proof Hwf as (Hv & Hb & Hsft & Hfit & Hd).
+  destruct (unsigned64_roundtrip f off m Hty Hwf Hoff He) as (Hdec & _).
+  unfold encode_offset in He. rewrite Hv in He. cbn [Z.eqb Pos.eqb orb] in He.
+  pose proof (unsigned64_spec f off Hty Hwf Hoff) as Hs. rewrite He in Hs. destruct Hs as ((_ & Hr) & _).
+  assert (Hpos : 0 <= off).
+  { destruct (Z_lt_le_dec off 0) as [Hneg|]; [exfalso|assumption]. unfold int64 in Hoff.
+    rewrite u64_of_int64 in Hr by exact Hoff. replace (off <? 0) with true in Hr by (symmetry; apply Z.ltb_lt; lia).
+    pose proof (pow2_pos (discard f) ltac:(lia)).
+    assert (2 ^ bits f <= (off + 2 ^ 64) / 2 ^ discard f).
+    { apply Z.div_le_lower_bound; [lia|]. rewrite Z.mul_comm, <- Z.pow_add_r by lia.
+      pose proof (pow2_le (bits f + discard f) 63 ltac:(lia)). lia. }
+    lia. }
+  split; [exact Hpos|]. rewrite Hdec. apply Z.mod_small. unfold int64 in Hoff. lia.
 Qed.
 
-(* the other formats are untouched by the flag *)
-Lemma encode_offset_top_other fb fc un f off : is_unsigned8 f = false -> encode_offset_top fb fc un f off = encode_offset_var fb fc f off.
-Proof. intros H. unfold encode_offset_top. rewrite H, andb_false_r. reflexivity. Qed.
-
-(* KNOWN FINDING: the code as it is accepts a negative displacement when bits + discard = 64 *)
-Theorem unsigned64_negative_refuted :
-  exists f off m, ty f = UnsignedOffset /\ wf_contig64 f /\ int64 off /\ off < 0 /\
-                  encode_offset f off = Some m /\ decode_unsigned f m <> off.
-Proof.
-  exists {| ty := UnsignedOffset; vsize := 8; bits := 61; shift := 0; discard := 3 |}, (-8), (2 ^ 61 - 1).
-  split; [reflexivity|]. split; [unfold wf_contig64; cbn; lia|]. split; [split; [discriminate | reflexivity]|].
-  split; [reflexivity|]. split; [vm_compute; reflexivity | vm_compute; discriminate].
-Qed.
-
-(* the hypotheses of the round trip are satisfiable (a 40-bit field at bit 3 of an 8-byte word, positive offset accepted,
-   negative and too large ones refused) *)
+(* non-vacuity: an absolute address >= 2^63 arrives as a negative int64 and is stored as itself (relocate_to_base);
+   a 40-bit field refuses negative and too large offsets *)
 Example unsigned64_witness :
+  let a := {| ty := UnsignedOffset; vsize := 8; bits := 64; shift := 0; discard := 0 |} in
   let f := {| ty := UnsignedOffset; vsize := 8; bits := 40; shift := 3; discard := 0 |} in
-  wf_contig64 f /\ bits f + discard f <= 63 /\
-  encode_offset f 1099511627775 = Some (1099511627775 * 8) /\ encode_offset f (-1) = None /\ encode_offset f 1099511627776 = None /\
-  encode_offset_top true true true {| ty := UnsignedOffset; vsize := 8; bits := 61; shift := 0; discard := 3 |} (-8) = None.
+  wf_contig64 a /\ wf_contig64 f /\
+  encode_offset a (-16717024) = Some 18446744073692834592 /\ decode_unsigned a 18446744073692834592 = (-16717024) mod 2 ^ 64 /\
+  encode_offset f 1099511627775 = Some (1099511627775 * 8) /\ encode_offset f (-1) = None /\ encode_offset f 1099511627776 = None.
 Proof. cbv zeta. unfold wf_contig64. cbn [vsize bits shift discard]. repeat split; try lia; vm_compute; reflexivity. Qed.
